@@ -1,0 +1,56 @@
+//go:build verif
+
+package sb
+
+// Hooks for the verification harness in /verif. Compiled only with -tags verif;
+// without the tag this file does not exist for the compiler.
+
+// VerifInitDecodeStep exposes the unexported initial segment size of the
+// comparison-oriented decoder.
+func VerifInitDecodeStep() int {
+	return initDecodeStep
+}
+
+// VerifHoldBytesPool8 takes n elements of the 8-byte scratch pool and holds
+// them until release is called (forces the pool's fallback path).
+func VerifHoldBytesPool8(n int) (release func()) {
+	var puts []func() bool
+	for i := 0; i < n; i++ {
+		var buf []byte
+		elem := bytesPool8.Get(&buf)
+		puts = append(puts, elem.Put)
+	}
+	return func() {
+		for _, put := range puts {
+			put()
+		}
+	}
+}
+
+// VerifHoldBytesPool32K is the same for the 32K buffer pool.
+func VerifHoldBytesPool32K(n int) (release func()) {
+	var puts []func() bool
+	for i := 0; i < n; i++ {
+		var buf []byte
+		elem := bytesPool32K.Get(&buf)
+		puts = append(puts, elem.Put)
+	}
+	return func() {
+		for _, put := range puts {
+			put()
+		}
+	}
+}
+
+// VerifResetCaches clears the type-name and deprecation memo tables (not the
+// registries) so that concurrent trials start from a cold cache.
+func VerifResetCaches() {
+	typeToName.Range(func(k, _ any) bool {
+		typeToName.Delete(k)
+		return true
+	})
+	fieldIsDeprecatedMap.Range(func(k, _ any) bool {
+		fieldIsDeprecatedMap.Delete(k)
+		return true
+	})
+}
